@@ -14,7 +14,7 @@
    device's observation sequence is decided per pair of runs of the real schedulers (code 91) and,
    for adapters / EPICS records, on the real adapter classes.  Property theorems only. *)
 From TV Require Import Base Gen.SourceConsts Model.Topics Model.Wiring Model.Ticker Model.Component Model.Sim
-  Model.SimTime Proofs.TopicsP Proofs.SimP Proofs.FlattenP Proofs.NonInterfP Proofs.NonInterfLoopP.
+  Model.SimTime Proofs.TopicsP Proofs.SimP Proofs.FlattenP Proofs.NonInterfP Proofs.NonInterfLoopP Proofs.SimTimeP.
 Open Scope Z_scope.
 
 Theorem C10_topics_disjoint : forall a b,
@@ -72,6 +72,35 @@ Theorem C10_run_noninterference : forall cfg cfg' devf (isX : comp -> bool),
     sim_run cfg' devf n fuel initial h = (s1', o1', true) ->
     exists s1, sim_run cfg devf n fuel initial h = (s1, filter (notX isX) o1', true) /\ srel isX top s1 s1'.
 Proof. exact run_noninterference. Qed.
+
+(* the same for the master model with real time (Model/Sim.v [simulate_full], the model every
+   whole-simulation run of the real schedulers is compared with), at speed 1, no interrupts, devices
+   that never ask to be called back in the past: the simulation-time loop IS that model
+   ([master_is_sim_loop]), so whenever the extended run is complete within the given steps every
+   base device observes in the base simulation exactly what it observes in the extended one *)
+Theorem C10_master_noninterference : forall cfg cfg' devf (isX : comp -> bool),
+  l_order (level_of cfg top) = filter (fun ck : comp * ckind => negb (isX (fst ck))) (l_order (level_of cfg' top)) ->
+  l_conns (level_of cfg top) = filter (oldc isX) (l_conns (level_of cfg' top)) ->
+  (forall ck, In ck (l_order (level_of cfg' top)) -> snd ck = KDev) ->
+  (forall k, In k (l_conns (level_of cfg' top)) -> isX (out_comp k) = isX (in_comp k)) ->
+  isX ext_id = false -> isX exp_id = false ->
+  (forall c n t i w, snd (devf c n t i) = Some w -> t <= w) ->
+  forall n fuel initial t_end,
+    snd (sim_run cfg' devf n fuel initial (initial + t_end)) = true ->
+    filter (notX isX) (m_obs (simulate_full cfg' devf 1 1 fuel n initial [] [] t_end)) =
+    m_obs (simulate_full cfg devf 1 1 fuel n initial [] [] t_end).
+Proof.
+  intros cfg cfg' devf isX Hord Hcon Hk Hsep Hext Hexp Hwell n fuel initial t_end Hfin.
+  assert (Hflat : forall ck, In ck (l_order (level_of cfg top)) -> snd ck = KDev).
+  { intros ck Hi. rewrite Hord in Hi. apply filter_In in Hi. apply Hk. apply Hi. }
+  pose proof (master_is_sim_loop cfg' devf Hk Hwell fuel initial t_end n) as H'.
+  pose proof (master_is_sim_loop cfg devf Hflat Hwell fuel initial t_end n) as H.
+  cbv zeta in H, H'.
+  destruct (sim_run cfg' devf n fuel initial (initial + t_end)) as [[s1' o1'] fin'] eqn:E'.
+  cbn [snd] in Hfin. subst fin'.
+  destruct (run_noninterference cfg cfg' devf isX Hord Hcon Hk Hsep Hext Hexp n fuel initial (initial + t_end) s1' o1' E') as [s1 [E _]].
+  rewrite E in H. destruct H as [_ H]. destruct H' as [_ H']. rewrite H, H'. reflexivity.
+Qed.
 
 (* non-vacuity of the run theorem: base 3 -> 4 (3 periodic every 10), extended by 7 -> 8 with 7
    periodic every 4: extra ticks at 4, 8, 12, 16 and a merged tick at 20 *)
